@@ -1,6 +1,11 @@
 package validation
 
-import "github.com/Vedant9500/WTF/internal/constants"
+import (
+	"unicode"
+	"unicode/utf8"
+
+	"github.com/Vedant9500/WTF/internal/constants"
+)
 
 // C14 harnesses: ValidateLimit over all int64, ValidateQuery over byte strings.
 
@@ -19,3 +24,95 @@ func VerifHarness_C14_Limit() {
 	}
 	verifReach("end")
 }
+
+func c14IsMeta(b byte) bool {
+	return b == '<' || b == '>' || b == '|' || b == '&' || b == ';' || b == '$'
+}
+
+// reference acceptance predicate, spelled from the property statement
+func c14SpecAccept(q string) bool {
+	if len(q) > 1000 {
+		return false
+	}
+	for i := 0; i < len(q); i++ {
+		if c14IsMeta(q[i]) {
+			return false
+		}
+	}
+	nonBlank := false
+	for _, r := range q {
+		if unicode.IsControl(r) && r != '\n' && r != '\t' {
+			continue // removed
+		}
+		if !unicode.IsSpace(r) {
+			nonBlank = true
+		}
+	}
+	return nonBlank
+}
+
+func c14CheckClean(in, out string) {
+	prevSpace := true // leading
+	n := 0
+	for _, r := range out {
+		n++
+		verifAssert(!unicode.IsControl(r), "C14: output has no control character")
+		sp := unicode.IsSpace(r)
+		verifAssert(!(sp && prevSpace), "C14: output has no leading or repeated whitespace")
+		prevSpace = sp
+	}
+	verifAssert(!(prevSpace && n > 0), "C14: output has no trailing whitespace")
+	verifAssert(n > 0, "C14: accepted output is not empty")
+	for i := 0; i < len(out); i++ {
+		verifAssert(!c14IsMeta(out[i]), "C14: output has no shell metacharacter")
+	}
+	verifAssert(utf8.RuneCountInString(out) <= utf8.RuneCountInString(in), "C14: output has no more characters than input")
+}
+
+func c14Body(q string) {
+	out, err := ValidateQuery(q)
+	spec := c14SpecAccept(q)
+	verifAssert((err == nil) == spec, "C14: accepted exactly when <=1000 bytes, no metacharacter, not blank after control removal")
+	if err == nil {
+		c14CheckClean(q, out)
+		out2, err2 := ValidateQuery(out)
+		verifAssert(err2 == nil, "C14: validating a validated query succeeds")
+		if err2 == nil {
+			verifAssert(out2 == out, "C14: validating a validated query returns it unchanged")
+		}
+		verifReach("accepted")
+	} else {
+		verifReach("rejected")
+	}
+}
+
+// F1: every byte string of length 0..L, all bytes symbolic over the full range.
+func VerifHarness_C14_QueryBytes2() { c14Body(verifString("q", verifIntRange("len", 0, 2))) }
+func VerifHarness_C14_QueryBytes3() { c14Body(verifString("q", 3)) }
+func VerifHarness_C14_QueryBytes4() { c14Body(verifString("q", 4)) }
+
+// F3: k copies of one symbolic byte (long loops, one variable): reaches the
+// encoder-expansion corner (invalid UTF-8 bytes become 3-byte U+FFFD).
+func c14Repeat(k int) {
+	b := verifByte("b")
+	bs := make([]byte, k)
+	for i := range bs {
+		bs[i] = b
+	}
+	c14Body(string(bs))
+}
+func VerifHarness_C14_Repeat334() { c14Repeat(334) }
+func VerifHarness_C14_Repeat400() { c14Repeat(400) }
+func VerifHarness_C14_Repeat1000() { c14Repeat(1000) }
+
+// F2: boundary lengths 999 / 1000 / 1001: two symbolic bytes + concrete padding.
+func c14Boundary(n int) {
+	pad := make([]byte, n-2)
+	for i := range pad {
+		pad[i] = 'a'
+	}
+	c14Body(verifString("head", 1) + string(pad) + verifString("tail", 1))
+}
+func VerifHarness_C14_Len999()  { c14Boundary(999) }
+func VerifHarness_C14_Len1000() { c14Boundary(1000) }
+func VerifHarness_C14_Len1001() { c14Boundary(1001) }
